@@ -341,6 +341,15 @@ class Folder:
         if isinstance(node, ast.Attribute):
             base = ev(node.value)
             return self._getattr(base, node.attr)
+        if isinstance(node, ast.Subscript) and isinstance(node.slice, ast.Slice):
+            base = ev(node.value)
+            parts = [None if x is None else ev(x) for x in (node.slice.lower, node.slice.upper, node.slice.step)]
+            if isinstance(base, (str, list, tuple)) and all(p_ is None or (isinstance(p_, int) and not isinstance(p_, bool)) for p_ in parts):
+                try:
+                    return base[slice(*parts)]
+                except Exception:
+                    return Unknown('slice failed')
+            return Unknown('slice')
         if isinstance(node, ast.Subscript):
             base = ev(node.value)
             idx = ev(node.slice)
